@@ -249,3 +249,52 @@ def bit_accessors_small():
 
 
 bit_accessors_small.bounded = "57 words x indices -2..34, native evaluation of the contract clauses"
+
+
+@table("time-and-address-small", prop="C20")
+def time_and_address_small():
+    """Time AVPs (real classes, native): whole seconds since 1900-01-01 == floor for instants with every kind of
+    microsecond part (0, 1, 499999, 500000, 999999) at the corners of the representable range and a spread of
+    dates; Address AVPs: family code + packed address, reported back unchanged, for a spread of IPv4/IPv6 literals"""
+    import datetime
+    import ipaddress
+    from bromelia.avps import EventTimestampAVP, HostIpAddressAVP
+    epoch = datetime.datetime(1900, 1, 1)
+    bad_t, nt = [], 0
+    instants = [datetime.datetime(1900, 1, 1, 0, 0, 0), datetime.datetime(1900, 1, 1, 0, 0, 1),
+                datetime.datetime(1968, 1, 20, 3, 14, 7), datetime.datetime(1968, 1, 20, 3, 14, 8),
+                datetime.datetime(1999, 12, 31, 23, 59, 59), datetime.datetime(2020, 11, 12, 18, 15, 55),
+                datetime.datetime(2036, 2, 7, 6, 28, 14), datetime.datetime(2036, 2, 7, 6, 28, 15)]
+    for base in instants:
+        for us in (0, 1, 499999, 500000, 999999):
+            nt += 1
+            t = base.replace(microsecond=us)
+            want = int((t - epoch) // datetime.timedelta(seconds=1))
+            try:
+                a = EventTimestampAVP(t)
+                got = int.from_bytes(a.data, "big")
+                ok = got == want and len(a.data) == 4
+            except BaseException as e:  # noqa
+                ok, got = False, "raised %s" % type(e).__name__
+            if not ok and len(bad_t) < 6:
+                bad_t.append({"instant": t.isoformat(), "seconds": got, "want": want})
+    bad_a, na = [], 0
+    for lit in ("0.0.0.0", "10.0.0.1", "127.0.0.1", "192.168.255.254", "255.255.255.255", "::", "::1", "2001:db8::1",
+                "fe80::1ff:fe23:4567:890a", "ffff:ffff:ffff:ffff:ffff:ffff:ffff:ffff", "::ffff:10.0.0.1"):
+        na += 1
+        ip = ipaddress.ip_address(lit)
+        want = (b"\x00\x01" if ip.version == 4 else b"\x00\x02") + ip.packed
+        try:
+            a = HostIpAddressAVP(lit)
+            ok = a.data == want and ipaddress.ip_address(a.get_ip_address()) == ip \
+                and a.is_ipv4() == (ip.version == 4) and a.is_ipv6() == (ip.version == 6)
+            got = a.data.hex()
+        except BaseException as e:  # noqa
+            ok, got = False, "raised %s" % type(e).__name__
+        if not ok:
+            bad_a.append({"literal": lit, "data": got, "want": want.hex()})
+    return [("time-is-whole-seconds-since-1900", not bad_t, {"checked": nt, "failing": bad_t}),
+            ("address-is-family-plus-packed-and-reads-back", not bad_a, {"checked": na, "failing": bad_a[:5]})]
+
+
+time_and_address_small.bounded = "40 instants (8 dates x 5 microsecond parts), 11 address literals; native"
